@@ -53,6 +53,9 @@ def build(spec, shared=None):
         m = Block({n: build(c, shared) for n, c in spec["ch"]})
     elif t == "linear":
         m = torch.nn.Linear(spec["in"], spec["out"], bias=spec["bias"])
+        if "tie_weight_to" in spec:
+            # weight tying (e.g. lm_head.weight is embedding.weight): the very same Parameter object
+            m.weight = shared[spec["tie_weight_to"]].weight
     elif t == "conv":
         m = torch.nn.Conv2d(spec["cin"], spec["cout"], tup(spec["k"]), stride=tup(spec["stride"]), padding=tup(spec["padding"]),
                             dilation=tup(spec["dilation"]), groups=spec["groups"], bias=spec["bias"], padding_mode=spec["padding_mode"])
@@ -180,3 +183,32 @@ def named_specs(spec, prefix="", shared=None, out=None):
     for n, c in ch:
         named_specs(c, (prefix + "." if prefix else "") + n, shared, out)
     return out
+
+
+# ---- user-defined optimizers (the documented extension point): clipping variants of the defaults -----------------
+from optimum.quanto.tensor.optimizers import AbsmaxOptimizer, MaxOptimizer  # noqa: E402
+
+
+class ClipAbsmax(AbsmaxOptimizer):
+    """symmetric: the scale covers only 75 % of the range (outliers saturate)"""
+
+    def optimize(self, base, *args, **kwargs):
+        return super().optimize(base, *args, **kwargs) * 0.75
+
+
+class ClipMax(MaxOptimizer):
+    """affine: the range is shrunk around zero"""
+
+    def optimize(self, base, bits, axis):
+        dim = list(range(1, base.ndim)) if (axis == 0) else list(range(0, base.ndim - 1))
+        rmin = torch.clamp(torch.amin(base, dim=dim, keepdim=True), max=0) * 0.8
+        rmax = torch.clamp(torch.amax(base, dim=dim, keepdim=True), min=0) * 0.8
+        scale = (rmax - rmin) / (2 ** bits - 1)
+        zeropoint = torch.round(torch.where(scale == 0, scale, -rmin / scale)).to(torch.int8)
+        return scale, zeropoint
+
+
+def make_optimizer(name, weights):
+    if name is None:
+        return None
+    return ClipMax() if weights in ("qint2", "qint4") else ClipAbsmax()
